@@ -134,6 +134,8 @@ class NXGraph:
             return NodeView(self)
         if name == 'edges':
             return EdgeView(self)
+        if name in ('adj', '_adj'):
+            return AdjView(self)
         if name in ('add_node', 'add_nodes_from', 'add_edge', 'add_edges_from', 'remove_node', 'remove_nodes_from',
                     'remove_edge', 'clear', 'copy', 'subgraph', 'neighbors', 'has_node', 'has_edge', 'number_of_nodes',
                     'is_directed', 'is_multigraph', '__contains__'):
@@ -233,6 +235,32 @@ class NXGraph:
 
     def __pyvc_iter__(self, I):
         return iter(GraphIter(self, list(self.node.e), 'nodes').__pyvc_iter__(I))
+
+
+class AdjView:
+    """G.adj: node -> {neighbour: edge attribute dict} (the inner dict lists the neighbours in adjacency order; the edge
+    attribute dicts are the live ones)"""
+    def __init__(self, g):
+        self.g = g
+
+    def __pyvc_getitem__(self, I, n):
+        if is_sym(n):
+            raise Unsupported('G.adj[<symbolic key>]')
+        if n not in self.g.node.e:
+            _raise(I, KeyError, n)
+        d = PDict()
+        for m in self.g.adj_order[n]:
+            d.e[m] = [True, self.g.edge.e[ekey(n, m)][1]]
+        return d
+
+    def __pyvc_iter__(self, I):
+        return iter(list(self.g.node.e))
+
+    def __pyvc_len__(self, I):
+        return len(self.g.node.e)
+
+    def __pyvc_contains__(self, I, x):
+        return x in self.g.node.e
 
 
 class GraphIter:
